@@ -146,8 +146,12 @@ def _coq_str_unescape(s):
 
 
 def coqc_file(path, timeout=1200):
-    rc, out, err = sh(["timeout", str(timeout), "coqc", "-noglob", "-Q", os.path.join(COQ, "theories"), "Typify",
-                       "-w", "-all", path], cwd=os.path.dirname(path), timeout=timeout + 30)
+    # large `vm_compute` results overflow coqc's default 8 MB stack in the printer
+    cmd = ["timeout", str(timeout), "coqc", "-noglob", "-Q", os.path.join(COQ, "theories"), "Typify",
+           "-w", "-all", path]
+    if os.path.exists("/usr/bin/prlimit"):
+        cmd = ["/usr/bin/prlimit", "--stack=unlimited"] + cmd
+    rc, out, err = sh(cmd, cwd=os.path.dirname(path), timeout=timeout + 30)
     return rc, out, err
 
 
